@@ -486,21 +486,25 @@ impl NamingActor {
             log::warn!("update_instance not found service,{:?}", &key);
             return UpdateInstanceType::None;
         };
-        let client_id = instance.client_id.clone();
         let instance_key =
             InstanceKey::new_by_service_key(key, instance.ip.clone(), instance.port.to_owned());
-        if (instance.from_grpc || instance.is_from_cluster()) && !instance.client_id.is_empty() {
-            if let Some(set) = self.client_instance_set.get_mut(&client_id) {
-                set.insert(instance_key.clone());
-            } else {
-                let mut set = HashSet::new();
-                set.insert(instance_key.clone());
-                self.client_instance_set.insert(client_id, set);
-            }
-        }
         let instance_short_key = instance.get_short_key();
         let (tag, replace_old_client_id, perpetua_type) =
             service.update_instance(instance, tag, from_sync, &self.meta_manager_addr);
+        // record the instance for the connection that owns it AFTER the update: an update
+        // coming from another origin may have left the ownership with the old connection
+        if let Some(stored) = service.get_instance(&instance_short_key) {
+            if (stored.from_grpc || stored.is_from_cluster()) && !stored.client_id.is_empty() {
+                let client_id = stored.client_id.clone();
+                if let Some(set) = self.client_instance_set.get_mut(&client_id) {
+                    set.insert(instance_key.clone());
+                } else {
+                    let mut set = HashSet::new();
+                    set.insert(instance_key.clone());
+                    self.client_instance_set.insert(client_id, set);
+                }
+            }
+        }
         #[cfg(feature = "debug")]
         log::info!(
             "update_instance tag:{:?},key:{:?},replace_old_client_id:{:?}",
